@@ -295,6 +295,9 @@ func (ctrl *DefaultController) importLog(ctx context.Context, store Store, log l
 					return nil, fmt.Errorf("failed to insert schema: %w", err)
 				}
 			case ledger.CreatedTransaction:
+				if _, err := payload.Transaction.Postings.Validate(); err != nil {
+					return nil, NewErrImport(fmt.Errorf("invalid posting in imported transaction: %w", err))
+				}
 				logging.FromContext(ctx).Debugf("Importing transaction %d", *payload.Transaction.ID)
 				var schema *ledger.Schema
 				var err error
@@ -312,6 +315,9 @@ func (ctrl *DefaultController) importLog(ctx context.Context, store Store, log l
 				}
 				logging.FromContext(ctx).Debugf("Imported transaction %d", *payload.Transaction.ID)
 			case ledger.RevertedTransaction:
+				if _, err := payload.RevertTransaction.Postings.Validate(); err != nil {
+					return nil, NewErrImport(fmt.Errorf("invalid posting in imported revert transaction: %w", err))
+				}
 				logging.FromContext(ctx).Debugf("Reverting transaction %d", *payload.RevertedTransaction.ID)
 				_, _, err := store.RevertTransaction(
 					ctx,
